@@ -111,9 +111,12 @@ def special_req(name, s=None, i=(), d=()):
 
 
 class Pure:
-    def __init__(self, config):
-        self.mon = build.harness_shared(config, 'puremon')
+    def __init__(self, config, flavour='plain'):
+        # flavour 'meson': the monitor program compiled the usual way, linked against the library as the PROJECT's build system makes it
+        # (its flags and options).  LD_BIND_NOW: lazy binding would otherwise rewrite the library's GOT during the first calls
+        self.mon = build.harness_shared(config, 'puremon') if flavour == 'plain' else build.harness_meson(config, 'puremon')
         self.config = config
+        self.env0 = {} if flavour == 'plain' else {'LD_BIND_NOW': '1'}
 
     def run(self, req, strings, env=None):
         d = tempfile.mkdtemp(prefix='xv-pure-')
@@ -124,6 +127,7 @@ class Pure:
                 for s in strings:
                     fh.write(s.encode('utf8', 'surrogateescape') + b'\0')
             e = dict(os.environ); e.pop('XV_XRAYINIT', None)
+            e.update(self.env0)
             e.update(env or {})
             p = subprocess.run([self.mon, 'run'] + f, env=e, stdout=subprocess.PIPE, stderr=subprocess.STDOUT, timeout=1800)
             if p.returncode != 0:
@@ -155,10 +159,15 @@ def main(tier):
     locdir = build.locale_dir()
     totals = dict(evals=0, fresh=0, histories=0, reobserved=set(), preds={}, hashed_bytes=0, errors_kept=0)
     samples = []
-    for config in ('shipped', 'kissel'):
+    nhist0 = nhist
+    for config, flavour in (('shipped', 'plain'), ('kissel', 'plain'), ('shipped', 'meson')):
         L = execlib.Lib(config)
-        P = Pure(config)
+        P = Pure(config, flavour)
+        nhist = nhist0 if flavour == 'plain' else max(nhist0 // 3, 6)
         Q, S = build_queries(L, rng, per_fn)
+        if flavour != 'plain':
+            config = config + ' (project build)'
+            totals['histories_on_the_project_build'] = nhist
         nq = len(Q)
         fnname = {f['id']: n for n, f in L.fns.items()}
         fnname.update({v: k for k, v in execlib.SPECIAL_ID.items()})
@@ -166,7 +175,7 @@ def main(tier):
         fnname.update({2002: 'GetCompoundDataNISTList', 2003: 'GetRadioNuclideDataList', 2004: 'Crystal_GetCrystalsList', 2005: 'Crystal_ArrayInit',
                        2006: 'queries-on-one-crystal-object'})
         # ---- (1) fresh-process baseline: each query is the first and only call of its own process
-        nbase = nq if tier == 'thorough' else min(nq, 2500)
+        nbase = (nq if tier == 'thorough' else min(nq, 2500)) if flavour == 'plain' else min(nq, 900)
         base_idx = np.unique(np.concatenate([rng.choice(nq, nbase, replace=False), np.nonzero(Q['fn'] >= 2001)[0]]))
 
         def fresh(i):
@@ -244,7 +253,7 @@ def main(tier):
         # ---- (3) explicit insertions into the built-in collection: the hash must see them, and NOTHING else may change -
         #          neither unrelated queries nor any of the existing built-in crystals (stored volume, d-spacing, structure factor)
         from .. import xl
-        names = xl.XL(config).crystal_list()['names']
+        names = xl.XL(config.split()[0]).crystal_list()['names']
         cq, cs_ = [], []
         for nm_fn, kw in (('Crystal_UnitCellVolume', dict(s=names)), ('Crystal_dSpacing', dict(s=names, i=[1, 1, 1])),
                           ('Crystal_F_H_StructureFactor', dict(s=names, i=[1, 1, 1], d=[8.0, 1.0, 1.0]))):
@@ -270,6 +279,29 @@ def main(tier):
                              'inserting a crystal into the built-in collection changed the result of a query on something else',
                              dict(query=_show(block[j], S + ['', ''] + cs_, what), before=_cshow(can[j]), after_first=_cshow(can[nb + 1 + j]), after_last=_cshow(can[2 * nb + 2 + j]), config=config))
         totals['evals'] += len(seqreq)
+    # ---- (4) what LOADING the library does to a host process that is not linked against it (dlopen): constructors and start-up objects the
+    #          link pulls in run then.  Process state recorded before the load, after it, after some calls and after the unload (harness/loadmon.c)
+    lm = build.loadmon()
+    totals['loads'] = 0
+    for which, so in (('monitor build', build.lib('shipped', 'plain')['so']), ('project build', build.meson_lib('shipped')['so']), ('project build, kissel', build.meson_lib('kissel')['so'])):
+        for env in ({'LC_ALL': 'C'}, dict(LOCPATH=locdir, LC_ALL='xx_VERIF', XV_SETLOCALE='1')):
+            d = tempfile.mkdtemp(prefix='xv-load-')
+            try:
+                p = subprocess.run([lm, so, os.path.join(d, 'rep.json')], env=dict(os.environ, **env), stdout=subprocess.PIPE, stderr=subprocess.PIPE, timeout=600)
+                if p.returncode != 0 or not os.path.exists(os.path.join(d, 'rep.json')):
+                    raise common.Inconclusive('load monitor failed on the %s (rc %d): %s' % (which, p.returncode, p.stderr.decode('utf8', 'replace')[-300:]))
+                rep = json.load(open(os.path.join(d, 'rep.json')))
+            finally:
+                shutil.rmtree(d, ignore_errors=True)
+            if 'XV_SETLOCALE' in env and rep['before_load']['decimal_point'] != ',':
+                raise common.Inconclusive('synthetic locale not active in the load monitor: %r' % rep['before_load'])
+            totals['loads'] += 1; totals['evals'] += rep['calls']
+            for stage, key in (('after_load', 'c16:loading-the-library-changes-process-state'), ('after_calls', 'c16:process-state-changed-after-load-and-calls'), ('after_unload', 'c16:process-state-changed-after-unload')):
+                for comp, v in rep['before_load'].items():
+                    if rep[stage][comp] != v:
+                        ck.violation('%s:%s' % (key, comp), 'a program that dlopens the library (%s) finds its %s changed %s: %r before the load, %r afterwards' % (
+                            which, comp.replace('_', ' '), stage.replace('_', ' '), v, rep[stage][comp]), dict(build=which, env=env, report=rep))
+                        break
     multi = sum(1 for k, v in totals['preds'].items() if len(v) >= 2)
     if totals['histories'] == 0 or multi < 50:
         raise common.Inconclusive('too few queries re-observed after different predecessors: %d' % multi)
@@ -278,7 +310,7 @@ def main(tier):
                     'is run as the only call of a fresh process, then re-observed inside seeded random histories (with/without XRayInit, C and comma-decimal '
                     'locale) and compared bit for bit (status, code, message, values); writable library segments hashed before/after; locale, cwd, '
                     'stdout/stderr bytes and kept error objects re-checked; distinct = baseline queries re-observed identically after >= 2 different predecessor functions',
-               samples=samples, fresh_process_baselines=totals['fresh'], histories=totals['histories'], history_length=hlen,
+               samples=samples, fresh_process_baselines=totals['fresh'], library_loads_observed_by_the_load_monitor=totals['loads'], histories=totals['histories'], histories_on_the_project_build=totals.get('histories_on_the_project_build', 0), history_length=hlen,
                queries_reobserved=len(totals['reobserved']), hashed_bytes_per_history=totals['hashed_bytes'], error_objects_kept_and_recompared=totals['errors_kept'])
     return ck.finish(cov, ['library linked shared with -z now so that lazy binding does not rewrite the GOT', 'puremon harness, numpy'])
 
